@@ -295,18 +295,33 @@ class EngineC11:
 
     @staticmethod
     def _same_result(a, b) -> Optional[str]:
+        """Two runs that did the same arithmetic: equal up to rounding. (Bit identity is the rule, but numpy/BLAS
+        kernels choose their path by the alignment of freshly allocated buffers, so two identical calls in one process
+        may differ in the last bits -- seen in the C18 soak, DESIGN.md section 11. Anything above 1e-9 relative is
+        reported.)"""
+
+        def close(x, y):
+            x = np.asarray(x, dtype=float)
+            y = np.asarray(y, dtype=float)
+            if x.shape != y.shape:
+                return False
+            if np.array_equal(x, y, equal_nan=True):
+                return True
+            with np.errstate(all="ignore"):
+                return bool(np.all(np.isfinite(x) == np.isfinite(y)) and np.all(np.abs(x - y)[np.isfinite(x)] <= 1e-9 * (1.0 + np.abs(x)[np.isfinite(x)])))
+
         Ma, Mb = a["M"], b["M"]
-        if not np.array_equal(Ma.weights, Mb.weights):
+        if not close(Ma.weights, Mb.weights):
             return f"weights {np.asarray(Ma.weights).tolist()} vs {np.asarray(Mb.weights).tolist()}"
         for n, (fa, fb) in enumerate(zip(Ma.factor_matrices, Mb.factor_matrices)):
-            if not np.array_equal(fa, fb):
+            if not close(fa, fb):
                 return f"factor {n} differs by {float(np.max(np.abs(fa - fb)))}"
         oa, ob = float(a["info"]["obj"]), float(b["info"]["obj"])
-        if not (oa == ob or (np.isnan(oa) and np.isnan(ob))):
+        if not (oa == ob or (np.isnan(oa) and np.isnan(ob)) or close(oa, ob)):
             return f"obj {oa!r} vs {ob!r}"
         ka = np.asarray(a["info"]["kktViolations"]).reshape(-1)
         kb = np.asarray(b["info"]["kktViolations"]).reshape(-1)
-        if ka.shape != kb.shape or not np.array_equal(ka, kb):
+        if ka.shape != kb.shape or not close(ka, kb):
             return f"kktViolations {ka.tolist()} vs {kb.tolist()}"
         return None
 
